@@ -931,6 +931,20 @@ def rule_walk(ctx, prop):
         # (6) explicit + respect_ignores + ignored => skip (continue) before dispatch
         pis = [(b, t) for b, t in f.calls() if callee(t) == "path_is_stylua_ignored"]
         rep.floor("path_is_stylua_ignored call sites in format", len(pis), 2, cfg)
+        # (7) --glob patterns are anchored at the absolute working directory: the walker yields absolute entries for
+        # absolute arguments, and the override matcher strips its root before matching anchored patterns
+        obs = [(b, t) for b, t in f.calls() if re.search(r"OverrideBuilder::new$", callee(t))]
+        if rep.anchor(len(obs) >= 1, "OverrideBuilder::new in format", cfg):
+            for b, t in obs:
+                src = prov_calls(provenance(f, t["args"][0], through=re.compile(PROV_THROUGH.pattern + r"|Try>::branch$|AsRef<.*>>::as_ref$")))
+                ok = any(c.endswith("env::current_dir") for c in src)
+                rep.inst("stylua::format glob overrides rooted at current_dir()", {"root_from": sorted(c.split('::')[-1] for c in src)}, cfg, ok=ok)
+                if not ok:
+                    rep.violation("stylua::format glob-override-root-not-current_dir",
+                                  "the --glob override matcher is not rooted at std::env::current_dir(): with a relative or "
+                                  "constant root the working-directory prefix of absolute walker entries is not stripped, so "
+                                  "anchored patterns (`!vendor/**`, `src/**/*.lua`) never match files given by absolute path",
+                                  f.loc(t["sp"]), cfg)
     return rep
 
 
@@ -1108,4 +1122,52 @@ def rule_ignore_arg(ctx, prop):
                               f"consulted under different conditions than the option says (and than the sibling call site)",
                               f.loc(t["sp"]), cfg)
         rep.floor("call sites of path_is_stylua_ignored", len(sites), 2, cfg)
+    return rep
+
+
+def rule_verify_wiring(ctx, prop):
+    """--verify means OutputVerification::Full in every mode: the choice depends on opt.verify alone"""
+    rep = Report(prop, "R-VERIFYFLAG", "the OutputVerification handed to the formatter is Full exactly when opt.verify is "
+                                       "set - no other option (check, output format, stdin) takes part in the choice")
+    for cfg, prog in ctx.programs.items():
+        prog = _view(prog)
+        n = 0
+        for f in prog.fns("stylua"):
+            sites = [(b, s) for b, si_, s in f.stmts() if s["k"] == "assign" and s["rv"]["k"] == "agg"
+                     and s["rv"].get("adt", "").endswith("OutputVerification") and s["rv"].get("variant") in ("Full", "None")]
+            if not sites:
+                continue
+            sw = field_switches(f, "verify")
+            if not rep.anchor(len(sw) >= 1, f"{f.key}: a branch on opt.verify chooses the OutputVerification", cfg):
+                continue
+
+            def straight(frm, to):
+                """`to` is reached from `frm` by unconditional edges only"""
+                cur = frm
+                for _ in range(12):
+                    if cur == to:
+                        return True
+                    t = f.blocks[cur]["term"]
+                    if t["k"] in ("goto", "drop", "assert"):
+                        cur = t["t"]
+                    elif t["k"] == "call" and t.get("t") is not None:
+                        cur = t["t"]
+                    else:
+                        return False
+                return False
+            for b, s in sites:
+                n += 1
+                v = s["rv"]["variant"]
+                ok = any(straight(tr if v == "Full" else fl, b) for _, tr, fl, _ in sw if (tr if v == "Full" else fl) is not None)
+                rep.inst(f"{f.key} OutputVerification::{v} chosen by opt.verify alone", {"at": f.loc(s.get("sp"))}, cfg, ok=ok)
+                if not ok:
+                    others = sorted({callee(f.blocks[d]["term"]).split("::")[-1] if f.blocks[d]["term"]["k"] == "call" else
+                                     ".".join(str(x[1]) for x in proj_fields(op_place(f.blocks[d]["term"]["on"])) if x[0] == "f")
+                                     for d in f.dominators().get(b, ()) if f.blocks[d]["term"]["k"] == "switch"} - {""})
+                    rep.violation(f"{f.key} verification-choice-depends-on-more-than-verify {v}",
+                                  f"{f.path} chooses OutputVerification::{v} under a condition that is not `opt.verify` alone "
+                                  f"(switches above it: {others}): with some other option `--verify` is silently dropped, so a file "
+                                  f"whose output fails verification is reported as a plain diff / success instead of exit status 2",
+                                  f.loc(s.get("sp")), cfg)
+        rep.floor("OutputVerification choices", n, 2, cfg)
     return rep
